@@ -21,6 +21,8 @@ Decides (static, on type-checked MIR of every autocomplete configuration):
  T9 once             a renderer that answers a special case from a single element of `items` does not also run the general loop over
                        `items` afterwards (each candidate once).
  T7b compdef         the zsh stub starts with the `#compdef` tag (compinit reads only the first line).
+ T10 completers     Dir is never rendered like File (per mask case, table); the typed word is echoed as the only candidate only when neither an item
+                       nor a completer was computed.
 Does not decide: that sourcing the text in a real shell has no other effect."""
 import re
 from core import *
@@ -34,7 +36,7 @@ ASSUMPTIONS = [
     'ShellComp::Raw strings and &\'static constants are supplied by the developer, not by the user at completion time',
     'shell semantics: text inside single quotes with \' -> \'\\\'\' is data for bash and zsh',
 ]
-FLOORS = {'T1.typed-quoting': 19, 'T2.newline': 23, 'T3.accumulator': 6, 'T4.coverage': 12, 'T5.escaper': 4, 'T6.dispatch': 5, 'T7.stubs': 8, 'T8.line-protocol': 2, 'T9.once': 4}
+FLOORS = {'T1.typed-quoting': 19, 'T2.newline': 23, 'T3.accumulator': 6, 'T4.coverage': 12, 'T5.escaper': 4, 'T6.dispatch': 5, 'T7.stubs': 8, 'T8.line-protocol': 2, 'T9.once': 4, 'T10.completers': 4}
 
 RENDERERS = ['render_zsh', 'render_bash', 'render_fish', 'render_simple']
 INT_TYPES = {'usize', 'u8', 'u16', 'u32', 'u64', 'u128', 'isize', 'i8', 'i16', 'i32', 'i64', 'i128'}
@@ -73,6 +75,7 @@ def run(ctx):
         ctx.guard(t7, ctx, cfg, fs)
         ctx.guard(t8, ctx, cfg, fs, bodies)
         ctx.guard(t9, ctx, cfg, fs, bodies)
+        ctx.guard(completer_table, ctx, cfg, fs, bodies)
         ctx.guard(t5_offsets, ctx, cfg, fs)
         import c14, c08
         ctx.guard(c08.keep_only, ctx, lambda: c14.no_late_none(ctx, cfg, fs), lambda o: True, 'T6.dispatch')
@@ -266,6 +269,70 @@ def t9(ctx, cfg, fs, bodies):
                 twice.append(body.where(site.bb))
         ctx.ob('T9.once', '%s:special-case-excludes-loop' % body.path, not twice,
                '%s: %d write(s) take a candidate directly from `items` outside the loop; after none of them the loop over `items` runs as well: %s' % (body.path, n, twice or 'ok'), where=body.where(), cfg=cfg)
+
+def completer_table(ctx, cfg, fs, bodies):
+    """a requested shell completer is rendered as THAT completer: per renderer that emits completers (zsh, bash), the directives
+    written for ShellComp::Dir differ from those written for ShellComp::File in the masked case as well as in the unmasked one
+    (table by abstract evaluation of one round of the `ops` loop per variant; the paths are grouped by the outcome of the test on
+    `mask`).  And the typed word is echoed back as the only candidate only when NOTHING was computed: no item and no completer."""
+    from absint import Walker
+    from cfgq import reachable_edges
+    for r in ('render_zsh', 'render_bash'):
+        body = bodies[r]
+        params = {body.name_of(i): i for i in range(1, body.arg_count + 1)}
+        if 'ops' not in params:
+            continue
+        osw = [s for s in switches(body) if s.kind == 'enum' and s.enum == 'complete_shell::ShellComp' and s.target('Dir') is not None and s.target('File') is not None]
+        nx = [c for c in body.calls() if c.is_(r'as std::iter::Iterator>::next$') and 'complete_shell::ShellComp' in c.full]
+        if len(osw) != 1 or len(nx) != 1:
+            raise Broken('%s: the dispatch on ShellComp inside the ops loop was not found' % body.path)
+        sites = {s.bb: s for s in fmt_sites(body)}
+        table = {}
+        for V in ('File', 'Dir'):
+            w = Walker(body, max_paths=200, max_visits=2)
+            w.stop = {nx[0].bb}
+            for pth in w.run(osw[0].target(V), {}):
+                mask = 'any'
+                for (fb, o) in pth.forks:
+                    sw_ = Switch(body, fb)
+                    if sw_.kind == 'enum' and sw_.enum.endswith('option::Option') and o in ('Some', 'None'):
+                        mask = o
+                lits = tuple(sorted(''.join(x[1] if x[0] == 'lit' else '{}' for x in sites[b_].pieces) for b_ in pth.blocks if b_ in sites))
+                calls = tuple(sorted(c.name.split('::')[-1] for (_, c) in pth.calls if c.is_(r'Fn<.*>>::call$', r'FnMut<.*>>::call_mut$')))
+                table.setdefault((V, mask), set()).add((lits, calls))
+        same = [m for m in ('Some', 'None', 'any') if (('File', m) in table or ('Dir', m) in table) and table.get(('File', m)) == table.get(('Dir', m))]
+        ctx.ob('T10.completers', '%s:dir-is-not-file' % body.path, bool(table) and not same,
+               '%s: directives per completer kind x mask: %s; File and Dir coincide for mask %s' % (body.path, {('%s/%s' % k_): sorted(v_) for k_, v_ in sorted(table.items())}, same or 'never'), where=body.where(osw[0].b), cfg=cfg)
+    # typed-word echo
+    for r in RENDERERS:
+        body = bodies[r]
+        params = {body.name_of(i): i for i in range(1, body.arg_count + 1)}
+        if 'full_lit' not in params or 'items' not in params or 'ops' not in params:
+            continue
+        import c04
+        e_items = [(a, [t for t in body.succ(a) if t != t2][0] if len(body.succ(a)) == 2 else None) for (a, t2) in c04.nonempty_edges(body, params['items'])]
+        e_ops = [(a, [t for t in body.succ(a) if t != t2][0] if len(body.succ(a)) == 2 else None) for (a, t2) in c04.nonempty_edges(body, params['ops'])]
+        echo = []
+        for s in fmt_sites(body):
+            for (meth, T, op, bb) in s.args:
+                def lit_rooted(rs, depth=0):
+                    for q in rs:
+                        if q.kind == 'param' and q.what == 'full_lit':
+                            return True
+                        if q.kind == 'agg' and depth < 3 and any(lit_rooted(provenance(body, f, q.site[0], q.site[1]), depth + 1) for f in q.extra['fields']):
+                            return True
+                    return False
+                if lit_rooted(provenance(body, op, bb, 'term')) and len(s.args) == 1 and not any(c_.is_(r'Iterator>::next$') and 'ShowComp' in c_.full and body.dominates(c_.bb, s.bb) for c_ in body.calls()):
+                    echo.append(s)
+        bad = []
+        for s in echo:
+            via_items = any(t is not None and s.bb not in reachable_edges(body, 0, removed_edges=[(a, t)]) for (a, t) in e_items)
+            via_ops = any(t is not None and s.bb not in reachable_edges(body, 0, removed_edges=[(a, t)]) for (a, t) in e_ops)
+            if not (via_items and via_ops):
+                bad.append('%s (items empty: %s, ops empty: %s)' % (body.where(s.bb), via_items, via_ops))
+        if echo:
+            ctx.ob('T10.completers', '%s:typed-word-only-when-nothing-computed' % body.path, not bad,
+                   '%s echoes the typed word as a candidate at %d site(s), each reachable only through "items is empty" AND "ops is empty": %s' % (body.path, len(echo), bad or 'ok'), where=body.where(), cfg=cfg)
 
 def size_tests(body, param_local):
     """blocks whose switch condition derives from len()/is_empty()/slice pattern length of the param"""
